@@ -79,7 +79,10 @@ def _pause_resume(env: Env, out: Outcome, n: int, corpus: list[dict], n_join: in
         jobs.append((spec, rng_j.randrange(1 << 30), None, None, rng_j.randint(0, 9)))
     resumed: list = []
     for spec, seed, a1, a2, *more in jobs:
-        base = live.run_spec(copy.deepcopy(spec), seed=seed + 17)
+        # the uninterrupted run: the same workflow without the pause (corpus / replay cases carry their snapshot_stop in the spec)
+        base_spec = copy.deepcopy(spec)
+        base_spec["externals"] = [e for e in spec.get("externals", []) if e.get("op") != "snapshot_stop"]
+        base = live.run_spec(base_spec, seed=seed + 17)
         out.evaluations += 1
         if base.outcome[0] != "result":
             out.count("pause:baseline:" + base.outcome[0])
